@@ -30,16 +30,71 @@ def _init():
 
 
 # ------------------------------------------------------------------ one dataset on the real code
+def run_seq(path, seq, rows, groups):
+    """DIFFERENT filter programs one after the other ON ONE HANDLE (to_pandas / count / iter_row_groups / filter_row_groups), each
+    compared with the brute-force meaning on the full read; -> {"bad": None | text, "step": k}"""
+    from fastparquet import ParquetFile, api
+    pf = ParquetFile(path)
+    nrg = len(groups)
+    for k, (kind, prog) in enumerate(seq):
+        filters = FL.prog_to_filters(prog)
+        dnf = [filters] if prog["flat"] else filters
+        must = [r["rid"] for r in rows if FL.definitely(r, dnf)]
+        bad = None
+        try:
+            if kind == "read":
+                got = [int(x) for x in pf.to_pandas(filters=filters)["rid"].tolist()]
+            elif kind == "iter":
+                got = [int(x) for d in pf.iter_row_groups(filters=filters) for x in d["rid"].tolist()]
+            elif kind == "idx":
+                idx = [int(i) for i in api.filter_row_groups(pf, filters, as_idx=True)]
+                got = [x for i in idx for x in groups[i]] if all(0 <= i < nrg for i in idx) else None
+                if got is None:
+                    bad = "filter_row_groups(as_idx=True) returned %s for %d row groups" % (idx, nrg)
+            else:
+                c = int(pf.count(filters=filters))
+                got = None
+                if c < len(must):
+                    bad = "count(filters) = %d, %d rows satisfy the program" % (c, len(must))
+            if got is not None:
+                present = set(got)
+                lost = [x for x in must if x not in present]
+                expect = [x for g in groups if g and g[0] in present for x in g]
+                if lost:
+                    bad = "rows %s satisfy the program but are missing from %s" % (lost, got)
+                elif expect != got:
+                    bad = "result %s is not the in-order concatenation of whole row groups" % (got,)
+        except Exception as e:      # noqa
+            bad = "raised %s: %s" % (type(e).__name__, str(e)[:160])
+        if bad:
+            return {"step": k, "bad": "step %d of %d on one handle, %s with filters=%s: %s" % (k + 1, len(seq), kind, str(filters)[:300], bad)}
+    return {"step": None, "bad": None}
+
+
 def run_dataset(job):
     """write the dataset, read it fully, run every program; returns observations (all JSON-able)"""
-    spec, progs, want_model = job
+    spec, progs, want_model = job[:3]
+    seqs = job[3] if len(job) > 3 else []
     import numpy as np   # noqa
     from fastparquet import ParquetFile, api
     tmp = tempfile.mkdtemp(prefix="verif-C05w-", dir="/tmp")
     out = {"error": None, "progs": []}
     try:
         try:
-            path = FL.write_dataset(spec, tmp)
+            if spec.get("prelude"):
+                # a dataset of identical shape but other values is filtered FIRST in this process (state kept outside the handle)
+                pre = os.path.join(tmp, "pre")
+                os.mkdir(pre)
+                ppath = FL.write_dataset(spec["prelude"], pre)
+                ppf = ParquetFile(ppath)
+                for prog in progs:
+                    try:
+                        ppf.to_pandas(filters=FL.prog_to_filters(prog))
+                    except Exception:      # noqa
+                        pass
+            main = os.path.join(tmp, "main")
+            os.mkdir(main)
+            path = FL.write_dataset(spec, main)
             pf = ParquetFile(path)
             full = pf.to_pandas()
         except Exception as e:    # noqa
@@ -95,6 +150,7 @@ def run_dataset(job):
                 except Exception as e:      # noqa
                     o["model_skip"] = "glue mirror raised %s: %s" % (type(e).__name__, str(e)[:100])
             out["progs"].append(o)
+        out["seqs"] = [run_seq(path, seq, rows, groups) for seq in seqs]
         return out
     finally:
         shutil.rmtree(tmp, ignore_errors=True)
@@ -146,16 +202,22 @@ def gen_leaf_cases(rng, n):
         vmin = None if r < 0.15 else a
         r = rng.random()
         vmax = None if r < 0.15 else (vmin if (vmin is not None and rng.random() < 0.25) else b)
+        if dom in ("int", "float") and rng.random() < 0.12:
+            # a NaN bound (foreign footer): bounds nothing; stored as the text "nan" in the case
+            if rng.random() < 0.6:
+                vmin = "nan"
+            if rng.random() < 0.6 or vmin != "nan":
+                vmax = "nan"
         if op in ("in", "not in"):
             c = [val() for _ in range(rng.choice([0, 1, 2, 3, 5]))]
             if c and rng.random() < 0.5:
-                c[rng.randrange(len(c))] = rng.choice([x for x in (vmin, vmax, a) if x is not None] or [a])
+                c[rng.randrange(len(c))] = rng.choice([x for x in (vmin, vmax, a) if x is not None and x != "nan"] or [a])
         else:
-            c = rng.choice([val(), vmin if vmin is not None else val(), vmax if vmax is not None else val()])
+            c = rng.choice([val(), vmin if vmin not in (None, "nan") else val(), vmax if vmax not in (None, "nan") else val()])
             if mismatch:          # a scalar constant of the wrong type: both sides raise TypeError (or decide without comparing)
                 c = "a" if dom != "str" else 3
         wrap = [rng.random() < 0.3, rng.random() < 0.3]
-        cases.append({"op": op, "val": c, "vmin": vmin, "vmax": vmax, "arr": wrap})
+        cases.append({"op": op, "val": c, "vmin": vmin, "vmax": vmax, "arr": wrap, "nanb": "nan" in (vmin, vmax) and dom != "str"})
     return cases
 
 
@@ -164,6 +226,8 @@ def leaf_impl(case):
     from fastparquet import api
 
     def w(x, arr):
+        if x == "nan" and case.get("nanb"):
+            x = float("nan")
         if x is None or not arr:
             return x
         return np.array([x]) if not isinstance(x, str) else np.array([x], dtype=object)
@@ -176,6 +240,8 @@ def leaf_impl(case):
 
 def leaf_model_expr(case):
     def w(x, arr):
+        if x == "nan" and case.get("nanb"):
+            return "PNone"               # a NaN bound enters the model as absent (FL.bound_pv)
         t = FL.to_pv(x)
         return "(PArr [%s])" % t if (arr and x is not None) else t
     return "show_res_bool (filter_val (PStr %s) %s %s %s)" % (
@@ -265,6 +331,30 @@ def run(ctx):
         req_model += "From Pq Require Import Impl.FilterLeaf.\n"
         extra_q = []
 
+    # -------- inventory (regenerated from the source on every run): state that outlives one call on the filter path. The only memo the
+    # model knows is the `converted_min/max` item on the chunk's OWN Statistics object; a module-level cache or a memo written onto the
+    # handle / any parameter (keyed by something that need not determine the answer) is a new obligation-breaking offender.
+    try:
+        inv = py2coq.state_inventory(src, ["filter_row_groups", "filter_out_stats", "filter_out_cats", "filter_val"])
+        ctx.extra["state_inventory"] = inv
+        ctx.obligation("gen:memo_only_on_chunk (no module-level mutable state, no memo written onto a parameter, on the code reached from "
+                       "filter_row_groups / filter_out_stats / filter_out_cats / filter_val)",
+                       not inv["module"] and not inv["param_attr_writes"], json.dumps({k: inv[k] for k in ("module", "param_attr_writes")}))
+    except SyntaxError as e:
+        ctx.obligation("gen:memo_only_on_chunk", False, "api.py does not parse: %s" % e)
+    # -------- inventory (regenerated from the source on every run): the three parsers of partition-directory text (labels in
+    # api._path_to_cats, cells in core.read_row_group, what a filter constant is compared with in api.filter_out_cats) apply the same
+    # decoding to the raw text before typing it; fail closed (nothing claimed) when a parser's text variable is not found
+    try:
+        dd = py2coq.dirtext_decoders(os.path.join(C.REPO, "fastparquet", "api.py"), os.path.join(C.REPO, "fastparquet", "core.py"))
+        ctx.extra["directory_text_decoders"] = dd
+        if all(v is not None for v in dd.values()):
+            ctx.obligation("gen:directory_text_decoders_agree (labels / cells / filter apply the same decoding to a directory name)",
+                           dd["labels"] == dd["cells"] == dd["filter"], json.dumps(dd))
+        else:
+            ctx.notes.append("directory_text_decoders: not located for %s (oracle stream `oddpart` only)" % [k for k, v in dd.items() if v is None])
+    except SyntaxError as e:
+        ctx.obligation("gen:directory_text_decoders_agree", False, "source does not parse: %s" % e)
     C.use_shadow()
     warnings.filterwarnings("ignore")
     rng = ctx.rng
@@ -294,7 +384,7 @@ def run(ctx):
 
     # -------- datasets
     n_ds = 110 if quick else 800
-    n_prog = 36 if quick else 120
+    n_prog = 30 if quick else 120
     jobs = []
     # corpus first
     cdir = os.path.join(C.VERIF, "corpus", "C05")
@@ -320,7 +410,7 @@ def run(ctx):
     # wave-3 dimensions (fixed counts per run): long text values with statistics, partition keys at integer representation
     # boundaries, tz-aware timestamps against constants in other zones, one-sided / foreign statistics
     for flavour, cnt, focus in (("long", 14 if quick else 100, ["ls", "ls", "ls", "i"]), ("bigpart", 14 if quick else 100, ["q", "q", "q", "i"]),
-                                ("tz", 14 if quick else 100, ["tz", "tz", "tz", "i", "p"]), ("onesided", 24 if quick else 160, None)):
+                                ("tz", 14 if quick else 100, ["tz", "tz", "tz", "i", "p"]), ("onesided", 26 if quick else 200, None)):
         for _ in range(cnt):
             spec = FL.gen_dataset_w3(rng, flavour)
             ch = chunks_of(spec)
@@ -329,11 +419,45 @@ def run(ctx):
             kw = {"ops": FL.OPS + ["in"] * 7 + ["not in"], "in_sizes": [1, 2, 2, 3, 3, 4]} if flavour == "onesided" else {}
             progs = [FL.gen_program(rng, spec, ch, cols=cols, wrong_type=0, **kw) for _ in range(24 if quick else 60)]
             jobs.append((spec, progs, True))
+    # wave 4: (a) directory names with escapes; (b) sequences of DIFFERENT programs on one handle, incl. constants that print alike;
+    # (c) two datasets of identical shape but shifted values filtered one after the other in one process, both orders
+    for _ in range(10 if quick else 60):
+        spec = FL.gen_dataset_w3(rng, "oddpart")
+        ch = chunks_of(spec)
+        pcol = spec["partition_on"][0]
+        jobs.append((spec, [FL.gen_program(rng, spec, ch, cols=[pcol, pcol, pcol, "i"], wrong_type=0) for _ in range(20 if quick else 50)], True))
+    for ji in range(len(jobs)):
+        spec, progs = jobs[ji][0], jobs[ji][1]
+        if ji < ncorpus or rng.random() > (0.45 if quick else 0.6):
+            continue
+        seqs = []
+        for _ in range(2):
+            seq = []
+            tw = FL.gen_twin_programs(rng, spec) if rng.random() < 0.6 else None
+            if tw:
+                for pr in (tw[0], tw[1], tw[0]):
+                    seq.append([rng.choice(["read", "read", "count", "iter", "idx"]), pr])
+            for _ in range(rng.choice([2, 3, 4])):
+                okp = [p_ for p_ in progs if not _has_wrong_type(spec, p_)]
+                seq.append([rng.choice(["read", "read", "count", "iter", "idx"]), rng.choice(okp) if okp and rng.random() < 0.5 else
+                            FL.gen_program(rng, spec, chunks_of(spec), wrong_type=0)])
+            seqs.append(seq)
+        jobs[ji] = (spec, progs, jobs[ji][2], seqs)
+    for _ in range(10 if quick else 60):
+        a = FL.gen_dataset(rng, kinds=rng.sample(["int", "float", "nint", "ts"], 2), allow_parts=rng.random() < 0.5)
+        a["stats"] = True
+        b = FL.shifted_spec(a, rng.choice([3, 5, -4, 7]))
+        for first, second in ((a, b), (b, a)):
+            spec = dict(second, prelude=FL.shifted_spec(first, 0), flavour="twin-after-prelude")
+            ch = chunks_of(spec)
+            jobs.append((spec, [FL.gen_program(rng, spec, ch, wrong_type=0) for _ in range(10 if quick else 40)], False))
     results = C.pmap(run_dataset, jobs, init=_init, nproc=min(8, os.cpu_count() or 4), job_timeout=300)
 
     # -------- oracle + collect model expressions
     mexprs, mmeta = [], []
-    for ji, ((spec, progs, want_model), res) in enumerate(zip(jobs, results)):
+    for ji, (job, res) in enumerate(zip(jobs, results)):
+        spec, progs, want_model = job[:3]
+        seqs = job[3] if len(job) > 3 else []
         ctx.count("dataset.scheme", spec["scheme"] + ("+parts" if spec["partition_on"] else ""))
         ctx.count("dataset.flavour", spec.get("flavour", "random"))
         ctx.count("dataset.stats", "all" if spec["stats"] is True else ("none" if spec["stats"] is False else "some"))
@@ -347,6 +471,14 @@ def run(ctx):
             ctx.case({"spec": spec, "error": res["error"]}, trivial=True)
             continue
         ctx.count("dataset.row_groups", len(res["sizes"]))
+        for seq, so in zip(seqs, res.get("seqs", [])):
+            ctx.case({"spec": spec, "seq": seq}, trivial=False)
+            ctx.count("sequence.length", len(seq))
+            ctx.count("sequence.container constants", any(isinstance(c[2], dict) and "arr" in c[2] for _, pr in seq for g in pr["groups"] for c in g))
+            if so["bad"]:
+                cls = classify(spec, seq[so["step"]][1], "sequence-on-one-handle")
+                cls["step_kind"] = seq[so["step"]][0]
+                ctx.fail(cls, {"spec": spec, "seq": seq}, so["bad"])
         for prog, o in zip(progs, res["progs"]):
             case = {"spec": spec, "prog": prog}
             for g in prog["groups"]:
@@ -423,6 +555,17 @@ def replay(rep):
         print(json.dumps(rep, indent=1)[:6000])
         return 1
     _init()
+    if "seq" in rep["case"]:
+        res = run_dataset((rep["case"]["spec"], [], False, [rep["case"]["seq"]]))
+        if res["error"]:
+            print("dataset could not be written/read:", res["error"])
+            return 1
+        print("row-group sizes:", res["sizes"])
+        for k, (kind, prog) in enumerate(rep["case"]["seq"]):
+            print("  step %d: %s filters=%s" % (k + 1, kind, str(FL.prog_to_filters(prog))[:300]))
+        so = res["seqs"][0]
+        print("PROPERTY FAILS: " + so["bad"] if so["bad"] else "property holds on this case")
+        return 1 if so["bad"] else 0
     spec, prog = rep["case"]["spec"], rep["case"]["prog"]
     res = run_dataset((spec, [prog], False))
     if res["error"]:
